@@ -283,6 +283,92 @@ theorem C09_fecStage_segments {γ : Type} (P : Prims γ) (c : SessOut.Cfg) (enc 
       · simp only [fecStage, hro]
         exact ⟨hon, encode_inv P.parity c.cryptBase e r.body r.now maxFECEncodeLatency hinv, hdp.1.trans hd, hdp.2.trans hp⟩
 
+/-- … with the frame itself: `Wire.Spec.parseDatagram` of the plaintext frame is the nonce that was
+drawn and whatever `Wire.Spec.parseBody` makes of the FEC stage's packet -/
+theorem C09_parseDatagram_crypt {γ : Type} (P : Prims γ) (c : SessOut.Cfg) (H : C09_CipherLaws P c) (g : γ) (pkt : Pkt) :
+    Wire.Spec.parseDatagram P.crc (C09_specCrypt c) (C09_specFec c) (crypt P c g pkt).emit.plain =
+      (Wire.Spec.parseBody (C09_specFec c) pkt.rest).map fun f => ((crypt P c g pkt).emit.nonce, f) := by
+  have hn := C09_nonce_length P c H g pkt
+  have hh := C09_crypt_header P c g pkt
+  cases hc : c.cipher with
+  | none =>
+    simp only [C09_specCrypt, hc, crypt, Wire.Spec.parseDatagram]
+  | block =>
+    have h16 : (crypt P c g pkt).emit.nonce.length = 16 := by rw [hn]; simp only [Cfg.nonceLen, hc]; rfl
+    have hp := (hh.2.1 hc).2.2.2 h16
+    simp only [C09_specCrypt, hc, Wire.Spec.parseDatagram, hp]
+  | aead n o =>
+    have hnn : (crypt P c g pkt).emit.nonce.length = n := by rw [hn]; simp only [Cfg.nonceLen, hc]
+    obtain ⟨_, hpl, _⟩ := hh.2.2.1 n o hc
+    have hlen : ¬ (crypt P c g pkt).emit.plain.length < n := by
+      rw [hpl, List.length_append, hnn]; omega
+    have hdrop : (crypt P c g pkt).emit.plain.drop n = pkt.rest := by rw [hpl, List.drop_left' hnn]
+    have htake : (crypt P c g pkt).emit.plain.take n = (crypt P c g pkt).emit.nonce := by
+      rw [hpl, List.take_left' hnn]
+    simp only [C09_specCrypt, hc, Wire.Spec.parseDatagram, hlen, if_false, hdrop, htake]
+
+/-- **one datagram of the core through `postProcess`**, datagram by datagram: the first datagram
+emitted for the request decrypts to a frame that `Wire.Spec.parseDatagram` accepts — the nonce that
+was drawn, then a plain KCP frame (FEC off) or a DATA frame (FEC on) carrying exactly the core's
+segments; every further datagram emitted for the request is a parity packet, in which the observer
+finds no segment. -/
+theorem C09_data_datagram_parsed {γ : Type} (P : Prims γ) (c : SessOut.Cfg) (H : C09_CipherLaws P c) (st : PP γ)
+    (hst : C09_EncOk c st.enc) (r : Req) (hro : r.oob = false) (frs : List Wire.Frm) (hne : frs ≠ [])
+    (hb : r.body = Wire.encFrames frs) (hv : ∀ fr ∈ frs, Live.validCmd fr.cmd ∧ fr.data.length < 4294967296)
+    (hlen : r.body.length + 2 < 65536) :
+    ∃ em rest, (ppStep P c st r).emits = em :: rest ∧
+      C09_decrypt P c em.wire = some em.plain ∧
+      (∃ fr, Wire.Spec.parseDatagram P.crc (C09_specCrypt c) (C09_specFec c) em.plain = some (em.nonce, fr) ∧
+        ((c.fecOn = false ∧ fr = .kcp (frs.map specOf)) ∨
+         (c.fecOn = true ∧ ∃ id sz, fr = .data id sz (frs.map specOf)))) ∧
+      ∀ em' ∈ rest, em'.pkt.kind = .parity ∧ C09_observe P c em'.wire = [] := by
+  cases henc : st.enc with
+  | none =>
+    rw [henc] at hst
+    have hoff : c.fecOn = false := hst
+    refine ⟨(crypt P c st.gen ⟨.raw, 0, 0, r.body⟩).emit, [], ?_, C09_decrypt_wire P c H _ _, ?_, fun em' h => by cases h⟩
+    · simp only [ppStep, fecStage, henc, cryptAll]
+    · refine ⟨.kcp (frs.map specOf), ?_, Or.inl ⟨hoff, rfl⟩⟩
+      rw [C09_parseDatagram_crypt P c H]
+      simp only [C09_specFec, hoff, Wire.Spec.parseBody, hb, decode_encFrames frs hne hv]
+      rfl
+  | some e =>
+    rw [henc] at hst
+    obtain ⟨hon, hinv, hd, hp⟩ := hst
+    have hfec : C09_specFec c = some (e.d, e.p) := by simp only [C09_specFec, hon, if_true, hd, hp]
+    have hwf : ∀ s ∈ frs.map toSeg, s.WF := by
+      intro s hs
+      obtain ⟨fr, hfr, rfl⟩ := List.mem_map.mp hs
+      exact toSeg_wf fr (hv fr hfr).1 (hv fr hfr).2
+    have hbs : r.body = Wire.encodeSegs (frs.map toSeg) := by rw [hb, encFrames_eq]
+    have hdata := C09_data_frame_accepted P.parity c.cryptBase e (frs.map toSeg) r.now maxFECEncodeLatency hinv
+      (by simpa using hne) hwf (by rw [← hbs]; exact hlen)
+    rw [← hbs] at hdata
+    have hpp : (ppStep P c st r).emits =
+        (cryptAll P c st.gen ((encode P.parity c.cryptBase e r.body r.now maxFECEncodeLatency).pkt ::
+          (encode P.parity c.cryptBase e r.body r.now maxFECEncodeLatency).parity)).emits := by
+      simp only [ppStep, fecStage, henc, hro]
+      rfl
+    refine ⟨(crypt P c st.gen (encode P.parity c.cryptBase e r.body r.now maxFECEncodeLatency).pkt).emit,
+      (cryptAll P c (crypt P c st.gen (encode P.parity c.cryptBase e r.body r.now maxFECEncodeLatency).pkt).g
+        (encode P.parity c.cryptBase e r.body r.now maxFECEncodeLatency).parity).emits,
+      by rw [hpp]; rfl, C09_decrypt_wire P c H _ _, ?_, ?_⟩
+    · refine ⟨.data (BitVec.ofNat 32 e.next) (r.body.length + 2) (frs.map specOf), ?_, Or.inr ⟨hon, _, _, rfl⟩⟩
+      rw [C09_parseDatagram_crypt P c H, hfec, hdata, List.map_map]
+      rfl
+    · intro em' hem'
+      obtain ⟨g', q, hq, rfl⟩ := mem_cryptAll P c _ _ em' hem'
+      have hk := ((C09_fec_header_parity P.parity c.cryptBase e r.body r.now maxFECEncodeLatency hinv).2 q hq).1
+      refine ⟨by rw [crypt_pkt]; exact hk, ?_⟩
+      rw [C09_observe_crypt P c H, hfec]
+      by_cases hfull : e.cache.length + 1 = e.d
+      · by_cases hg : r.now - e.tsLatest < maxFECEncodeLatency
+        · rw [(encode_full_ok P.parity c.cryptBase e r.body r.now maxFECEncodeLatency hfull hg).2] at hq
+          obtain ⟨k, b', _, _, _, _, h4, _⟩ := mem_sealParities _ _ _ hq
+          rw [h4]; exact C09_bodySegs_parity _ _ _ _
+        · rw [(encode_full_skip P.parity c.cryptBase e r.body r.now maxFECEncodeLatency hfull hg).2] at hq; cases hq
+      · rw [(encode_mid P.parity c.cryptBase e r.body r.now maxFECEncodeLatency hfull).2] at hq; cases hq
+
 /-! ### `postProcess` over a request list -/
 
 /-- what a request carries for the observer: the frames of the core's datagram, nothing for OOB -/
